@@ -14,6 +14,7 @@ type Worker struct {
 	eng     *Engine
 	id      int
 	solvers *Solvers
+	longTO  bool // the next query may take five times the ordinary limit
 }
 
 var noSlice = os.Getenv("SYMGO_NOSLICE") != ""
@@ -252,6 +253,14 @@ func (w *Worker) assert(s *State, c *Term, msg string) {
 		return
 	}
 	r, m := w.sat(s, Not(c))
+	if r == "unknown" {
+		// an obligation is never given up at the ordinary limit: one more attempt with five times the time
+		// (a wall-clock limit also fires when the machine is merely busy)
+		w.longTO = true
+		r, m = w.sat(s, Not(c))
+		w.longTO = false
+		j.note("obligation retried with the extended limit: " + r)
+	}
 	switch r {
 	case "unsat":
 		atomic.AddInt64(&j.Discharged, 1)
